@@ -17,6 +17,7 @@ import (
 	"sync"
 	"time"
 
+	"gitee.com/Trisia/gotlcp/dtlcp"
 	"gitee.com/Trisia/gotlcp/tlcp"
 	"verifharness/internal/hx"
 	"verifharness/internal/pair"
@@ -271,6 +272,184 @@ func runTLCP(c caseDesc, cache *frozenT, primed *primedT) (string, *tlcp.VerifSc
 	return out, peer
 }
 
+// ---------------------------------------------------------------------------- DTLCP
+
+type frozenD struct {
+	mu sync.Mutex
+	m  map[string]*dtlcp.SessionState
+	on bool
+}
+
+func (f *frozenD) Get(k string) (*dtlcp.SessionState, bool) {
+	f.mu.Lock()
+	defer f.mu.Unlock()
+	s, ok := f.m[k]
+	return s, ok
+}
+func (f *frozenD) Put(k string, s *dtlcp.SessionState) {
+	f.mu.Lock()
+	defer f.mu.Unlock()
+	if f.on {
+		return
+	}
+	if s == nil {
+		delete(f.m, k)
+		return
+	}
+	f.m[k] = s
+}
+
+type primedD struct {
+	cache  *frozenD
+	master []byte
+	id     []byte
+}
+
+var primedDM = map[string]*primedD{}
+
+func dAuth(a string) dtlcp.ClientAuthType {
+	switch a {
+	case "request":
+		return dtlcp.RequestClientCert
+	case "require":
+		return dtlcp.RequireAnyClientCert
+	case "verify":
+		return dtlcp.RequireAndVerifyClientCert
+	}
+	return dtlcp.NoClientCert
+}
+
+// the endpoint never retransmits on its own during a case: the script answers at once and
+// quiescence is detected on the transport, so timers only add nondeterminism
+const noRetransmit = time.Hour
+
+func dtlcpConfigs(c caseDesc) (ep, sc *dtlcp.Config) {
+	s := pki.Std()
+	srv := &dtlcp.Config{Certificates: []dtlcp.Certificate{pair.DCert(s.SrvSig), pair.DCert(s.SrvEnc)}, Time: pki.NowFn,
+		CipherSuites: suiteIDs(c.suite), ClientAuth: dAuth(c.auth), ClientCAs: s.Root.Pool,
+		InitialRetransmitTimeout: noRetransmit, MaxRetransmitTimeout: noRetransmit, PMTU: 16000}
+	cli := &dtlcp.Config{RootCAs: s.Root.Pool, ServerName: "test.example", Time: pki.NowFn, CipherSuites: suiteIDs(c.suite),
+		Certificates:             []dtlcp.Certificate{pair.DCert(s.CliSig), pair.DCert(s.CliEnc)},
+		InitialRetransmitTimeout: noRetransmit, MaxRetransmitTimeout: noRetransmit, PMTU: 16000}
+	if c.role == "client" {
+		return cli, srv
+	}
+	return srv, cli
+}
+
+func primeDTLCP(c caseDesc) *primedD {
+	key := c.stack + "/" + c.role + "/" + c.suite + "/" + c.auth
+	primeMu.Lock()
+	defer primeMu.Unlock()
+	if p, ok := primedDM[key]; ok {
+		return p
+	}
+	p := &primedD{cache: &frozenD{m: map[string]*dtlcp.SessionState{}}}
+	full := c
+	full.mode = "full"
+	if c.role == "client" {
+		full.word = append([]string{"HVR"}, legalClientFull...)
+	} else {
+		full.word = append([]string{"CH"}, legalServerFull...)
+		if !serverRequests(c) {
+			full.word = []string{"CH", "CH", "CKX", "ccs", "Fin"}
+		}
+	}
+	out, sc := runDTLCP(full, p.cache, nil)
+	if !strings.HasPrefix(out, "completed") {
+		fmt.Fprintf(os.Stderr, "c08: priming handshake for %s did not complete: %s\n", key, out)
+	}
+	p.master, p.id = sc.Master(), append([]byte(nil), sc.SessionIDInUse()...)
+	p.cache.on = true
+	primedDM[key] = p
+	return p
+}
+
+func sendD(s *dtlcp.VerifScript, k string) error {
+	switch k {
+	case "CH":
+		return s.Send("ClientHello", nil)
+	case "SH":
+		return s.Send("ServerHello", nil)
+	case "HVR":
+		return s.Send("HelloVerifyRequest", nil)
+	case "Cert":
+		return s.Send("Certificate", nil)
+	case "CertE":
+		return s.Send("Certificate", &dtlcp.VerifSendOpts{EmptyCerts: true})
+	case "SKX":
+		return s.Send("ServerKeyExchange", nil)
+	case "CR":
+		return s.Send("CertificateRequest", nil)
+	case "SHD":
+		return s.Send("ServerHelloDone", nil)
+	case "CKX":
+		return s.Send("ClientKeyExchange", nil)
+	case "CV":
+		return s.Send("CertificateVerify", nil)
+	case "Fin":
+		return s.Send("Finished", nil)
+	case "ccs":
+		return s.SendCCS()
+	case "warn":
+		return s.SendAlert(1, 90)
+	case "app":
+		return s.SendAppData([]byte("x"))
+	case "empty":
+		return s.SendEmptyRecord(22)
+	}
+	return fmt.Errorf("unknown kind %q", k)
+}
+
+func runDTLCP(c caseDesc, cache *frozenD, primed *primedD) (string, *dtlcp.VerifScript) {
+	ep, sc := dtlcpConfigs(c)
+	if cache != nil {
+		ep.SessionCache = cache
+	}
+	ce, se := pair.PacketPipe()
+	w := script.NewWatch()
+	var conn *dtlcp.Conn
+	var peer *dtlcp.VerifScript
+	if c.role == "client" {
+		conn = dtlcp.Client(w.EndpointPacket(ce), se.LocalAddr(), ep)
+		peer = dtlcp.NewVerifScript("server", w.ScriptPacket(se), ce.LocalAddr(), sc)
+	} else {
+		conn = dtlcp.Server(w.EndpointPacket(se), ce.LocalAddr(), ep)
+		peer = dtlcp.NewVerifScript("client", w.ScriptPacket(ce), se.LocalAddr(), sc)
+	}
+	if primed != nil {
+		peer.ResumeMaster = primed.master
+		if c.role == "server" {
+			peer.SessionID = primed.id
+		}
+	}
+	defer func() { ce.Close(); se.Close(); w.WaitDone(idleTimeout) }()
+	w.Go(conn.Handshake)
+	if !w.WaitIdle(idleTimeout) {
+		return "stuck at=start", peer
+	}
+	peer.ReadAvailable()
+	for i, k := range c.word {
+		if done, err := w.Done(); done {
+			return verdict(err, i-1) + " early=1", peer
+		}
+		if err := sendD(peer, k); err != nil {
+			return fmt.Sprintf("senderr at=%d", i), peer
+		}
+		if !w.WaitIdle(idleTimeout) {
+			return fmt.Sprintf("stuck at=%d", i), peer
+		}
+		peer.ReadAvailable()
+		if done, err := w.Done(); done {
+			if p := w.Panicked(); p != "" {
+				fmt.Fprintf(os.Stderr, "c08: endpoint panic in [%s]: %s\n", c, p)
+			}
+			return verdict(err, i), peer
+		}
+	}
+	return "pending", peer
+}
+
 func verdict(err error, i int) string {
 	if err == nil {
 		return fmt.Sprintf("completed at=%d", i)
@@ -291,6 +470,14 @@ func execute(desc string) string {
 				cache = pr.cache
 			}
 			out, _ = runTLCP(c, cache, pr)
+		case "dtlcp":
+			var pr *primedD
+			var cache *frozenD
+			if c.mode == "resumed" {
+				pr = primeDTLCP(c)
+				cache = pr.cache
+			}
+			out, _ = runDTLCP(c, cache, pr)
 		default:
 			out = "unsupported"
 		}
@@ -303,20 +490,45 @@ func execute(desc string) string {
 // ---------------------------------------------------------------------------- enumeration
 
 func alphabet(c caseDesc) []string {
+	var a []string
 	if c.role == "client" {
-		return []string{"SH", "Cert", "CertE", "SKX", "CR", "SHD", "Fin", "ccs", "warn", "app", "empty", "CH", "CKX", "CV"}
+		a = []string{"SH", "Cert", "CertE", "SKX", "CR", "SHD", "Fin", "ccs", "warn", "app", "empty", "CH", "CKX", "CV"}
+	} else {
+		a = []string{"CH", "Cert", "CertE", "CKX", "CV", "Fin", "ccs", "warn", "app", "empty", "SH", "SKX", "CR", "SHD"}
 	}
-	return []string{"CH", "Cert", "CertE", "CKX", "CV", "Fin", "ccs", "warn", "app", "empty", "SH", "SKX", "CR", "SHD"}
+	if c.stack == "dtlcp" {
+		a = append(a, "HVR")
+	}
+	return a
 }
 
+// length of the longest legal flow (DTLCP: with one cookie round trip)
 func longest(c caseDesc) int {
+	n := 6
 	if c.mode == "resumed" {
-		return 3
+		n = 3
+	} else if c.role == "client" {
+		n = 7
 	}
-	if c.role == "client" {
-		return 7
+	if c.stack == "dtlcp" {
+		n++
 	}
-	return 6
+	return n
+}
+
+// maxRep bounds how often an ignorable duplicate (DTLCP: retransmitted ClientHello /
+// HelloVerifyRequest) may occur in an enumerated word, like maxWarn for warning alerts
+func tooManyDup(c caseDesc, p []string, a string, maxDup int) bool {
+	if c.stack != "dtlcp" {
+		return false
+	}
+	if c.role == "client" && a == "HVR" {
+		return count(p, "HVR") >= 1+maxDup
+	}
+	if c.role == "server" && a == "CH" {
+		return count(p, "CH") >= 2+maxDup
+	}
+	return false
 }
 
 func count(word []string, k string) int {
@@ -341,6 +553,9 @@ func enumerate(c caseDesc, maxWarn int, emit func(string, string)) {
 		for _, p := range frontier {
 			for _, a := range al {
 				if a == "warn" && count(p, "warn") >= maxWarn {
+					continue
+				}
+				if tooManyDup(c, p, a, maxWarn) {
 					continue
 				}
 				words = append(words, append(append([]string(nil), p...), a))
@@ -403,49 +618,66 @@ func main() {
 		return
 	}
 
-	stacks := []string{"tlcp"}
+	stacks := []string{"tlcp", "dtlcp"}
 	for _, st := range stacks {
+		// DTLCP flows start with the cookie exchange
+		cpre, spre := []string{}, []string{}
+		if st == "dtlcp" {
+			cpre, spre = []string{"HVR"}, []string{"CH"}
+		}
 		base := caseDesc{stack: st, role: "client", suite: "ecc", mode: "full", auth: "none"}
 		// 1. witnesses first: F1 (no ServerKeyExchange), both key exchanges, with and without CertificateRequest
-		run(base.with([]string{"SH", "Cert", "SHD", "ccs", "Fin"}))
-		run(base.with([]string{"SH", "Cert", "CR", "SHD", "ccs", "Fin"}))
+		run(base.with(cat(cpre, []string{"SH", "Cert", "SHD", "ccs", "Fin"})))
+		run(base.with(cat(cpre, []string{"SH", "Cert", "CR", "SHD", "ccs", "Fin"})))
 		e := base
 		e.suite = "ecdhe"
-		run(e.with([]string{"SH", "Cert", "CR", "SHD", "ccs", "Fin"}))
+		run(e.with(cat(cpre, []string{"SH", "Cert", "CR", "SHD", "ccs", "Fin"})))
 		c := base
 		c.suite = "ecc-cbc"
-		run(c.with([]string{"SH", "Cert", "SHD", "ccs", "Fin"}))
+		run(c.with(cat(cpre, []string{"SH", "Cert", "SHD", "ccs", "Fin"})))
 		// 2. the legal flows of every configuration
 		for _, su := range []string{"ecc", "ecdhe", "ecc-cbc", "ecdhe-cbc"} {
 			b := base
 			b.suite = su
+			run(b.with(cat(cpre, legalClientFull)))
 			run(b.with(legalClientFull))
 			if !strings.HasPrefix(su, "ecdhe") {
-				run(b.with([]string{"SH", "Cert", "SKX", "SHD", "ccs", "Fin"}))
+				run(b.with(cat(cpre, []string{"SH", "Cert", "SKX", "SHD", "ccs", "Fin"})))
 			}
 			b.mode = "resumed"
-			run(b.with([]string{"SH", "ccs", "Fin"}))
+			run(b.with(cat(cpre, []string{"SH", "ccs", "Fin"})))
 			for _, au := range []string{"none", "request", "require"} {
 				s := caseDesc{stack: st, role: "server", suite: su, mode: "full", auth: au}
-				run(s.with(legalServerFull))
-				run(s.with([]string{"CH", "CKX", "ccs", "Fin"}))
-				run(s.with([]string{"CH", "CertE", "CKX", "ccs", "Fin"}))
+				run(s.with(cat(spre, legalServerFull)))
+				run(s.with(cat(spre, []string{"CH", "CKX", "ccs", "Fin"})))
+				run(s.with(cat(spre, []string{"CH", "CertE", "CKX", "ccs", "Fin"})))
 				if strings.HasPrefix(su, "ecdhe") == (au == "require") && au != "request" {
 					s.mode = "resumed"
-					run(s.with([]string{"CH", "ccs", "Fin"}))
+					run(s.with(cat(spre, []string{"CH", "ccs", "Fin"})))
 				}
 			}
 		}
 		// 3. the bound on ignorable records (16): 16 warnings are tolerated, the 17th is fatal; the
 		// count is not reset by ChangeCipherSpec, it is reset by a handshake message
 		w16, w17 := rep("warn", 16), rep("warn", 17)
-		run(base.with(cat(w16, []string{"SH"}, w16, []string{"Cert", "SKX", "SHD", "ccs", "Fin"})))
+		run(base.with(cat(w16, cpre, []string{"SH"}, w16, []string{"Cert", "SKX", "SHD", "ccs", "Fin"})))
 		run(base.with(w17))
-		run(base.with(cat([]string{"SH", "Cert", "SKX", "SHD"}, rep("warn", 10), []string{"ccs"}, rep("warn", 6), []string{"Fin"})))
-		run(base.with(cat([]string{"SH", "Cert", "SKX", "SHD"}, rep("warn", 10), []string{"ccs"}, rep("warn", 7), []string{"Fin"})))
+		run(base.with(cat(cpre, []string{"SH", "Cert", "SKX", "SHD"}, rep("warn", 10), []string{"ccs"}, rep("warn", 6), []string{"Fin"})))
+		run(base.with(cat(cpre, []string{"SH", "Cert", "SKX", "SHD"}, rep("warn", 10), []string{"ccs"}, rep("warn", 7), []string{"Fin"})))
 		sv := caseDesc{stack: st, role: "server", suite: "ecc", mode: "full", auth: "none"}
-		run(sv.with(cat(w16, []string{"CH"}, w16, []string{"CKX"}, w16, []string{"ccs", "Fin"})))
-		run(sv.with(cat([]string{"CH"}, w17)))
+		run(sv.with(cat(w16, spre, []string{"CH"}, w16, []string{"CKX"}, w16, []string{"ccs", "Fin"})))
+		run(sv.with(cat(spre, []string{"CH"}, w17)))
+		if st == "dtlcp" {
+			// retransmission tolerance: duplicates of the peer's previous flight are dropped, and
+			// (being handshake records) restart the count of ignorable records
+			run(base.with(cat(rep("HVR", 5), []string{"SH", "Cert", "SKX", "SHD", "ccs", "Fin"})))
+			run(sv.with(cat([]string{"CH", "CH"}, rep("CH", 4), []string{"CKX", "ccs", "Fin"})))
+			run(sv.with(cat([]string{"CH", "CH"}, w16, []string{"CH"}, w16, []string{"CKX", "ccs", "Fin"})))
+			run(sv.with([]string{"CH", "CH", "CKX", "CH", "ccs", "Fin"}))
+			rq := sv
+			rq.auth = "request"
+			run(rq.with([]string{"CH", "CH", "CH", "Cert", "CH", "CKX", "CH", "CV", "ccs", "Fin"}))
+		}
 	}
 
 	// 4. every word up to |longest legal flow| + 1, pruned after the first failure
